@@ -323,12 +323,28 @@ def r1_rewrite(C, rep, rid):
                     k = strip(X.operand(b, c.args[1]))
                     if k[0] == "const":
                         gets.append(k[2])
+            # a presence accessor of the stream type (`fn contains(&self, typ) -> bool` = `entries.iter().any(|e| e.typ == typ)`)
+            # is the same test as `get(typ).is_some()`
+            pres = []
+            for c in b.calls:
+                cal = c.resolved or c.name
+                cb_ = F.by_cdef.get(cal)
+                if cb_ is not None and cb_.kind == "AssocFn" and cb_.arg_count == 2 and cb_.local_ty(1) == "&tlv::SerializedTlvStream" and cb_.local_ty(2) == "u64" and cb_.ret_ty == "bool" and len(c.args) > 1:
+                    grp_ = F.group(cal)
+                    anyc = [x for g_ in grp_ for x in g_.calls if x.name in ("std::iter::Iterator::any",)]
+                    eqs = [s_ for g_ in grp_ for bi_ in sorted(g_.reachable) for s_ in g_.blocks[bi_]["s"] if s_["k"] == "assign" and s_["rv"]["k"] == "bin" and s_["rv"]["op"] == "Eq"
+                           and any("typ" in show(strip(X.operand(g_, s_["rv"][k_]))) for k_ in ("a", "b"))]
+                    if anyc and eqs:
+                        k = strip(X.operand(b, c.args[1]))
+                        if k[0] == "const":
+                            gets.append(k[2])
+                            pres.append(c)
             okg = parsed and 33001 in gets and 33003 in gets
             # neither-present path must not reach the rewrite: remove both is_some true-edges -> rewrite unreachable
-            iss = [c for c in b.calls if c.name in ("std::option::Option::is_some", "std::option::Option::is_none")]
+            iss = [c for c in b.calls if c.name in ("std::option::Option::is_some", "std::option::Option::is_none")] + pres
             edges = []
             for c in iss:
-                present_is_true = c.name.endswith("is_some")          # the edge on which the record is present
+                present_is_true = c.name.endswith("is_some") or c in pres          # the edge on which the record is present
                 ft = lib.bool_edge_targets(b, c.target) if c.target is not None and b.term(c.target)["k"] == "switch" else None
                 if ft:
                     cw0 = lib.decode_switch(b, c.target)
@@ -1147,6 +1163,32 @@ def m_min_expiry(C, rep, rid):
 LOCKISH = re.compile(r"(Mutex|RwLock|Semaphore|Notify|Barrier|mpsc::|broadcast::|watch::|RefCell|Condvar|OnceCell|OnceLock)")
 
 
+STATEFUL = re.compile(r"Mutex<|RwLock<|Semaphore|Notify|Barrier|mpsc::|broadcast::|watch::|oneshot::|RefCell<|\bCell<|Condvar|OnceCell|OnceLock|LazyLock|Lazy<|Atomic[A-Z]")
+KNOWN_STATE = [
+    "std::sync::Arc<tokio::sync::Mutex<u32>>",                                                     # the height cell
+    "std::sync::Arc<tokio::sync::Mutex<tokio_util::codec::FramedWrite<_,cln_plugin::codec::JsonCodec>>>",   # the one writer
+    "std::sync::Arc<std::sync::Mutex<std::collections::HashMap<std::string::String,std::option::Option<cln_plugin::options::Value>>>>",
+    "tokio::sync::broadcast::Sender<()>",
+    "tokio::sync::mpsc::Sender<serde_json::Value>",
+    "std::sync::Mutex<std::collections::HashMap<tracing::span::Id,std::option::Option<std::string::String>>>",
+    "std::sync::Mutex<std::collections::HashMap<tracing::span::Id,std::string::String>>",
+    "tokio::sync::mpsc::UnboundedSender<cln_plugin::logging::LogEntry>",
+    "std::sync::Arc<tokio::sync::Mutex<std::collections::HashMap<cln_rpc::primitives::Sha256,_PS_>>>",     # the payments table
+    "tokio::sync::mpsc::Sender<()>",
+    "tokio::sync::mpsc::Sender<messages::HtlcAcceptedResponse>",
+    "std::vec::Vec<tokio::sync::oneshot::Sender<messages::HtlcAcceptedResponse>>",
+]
+
+
+def _shape(ty):
+    t = ty.replace(" ", "")
+    t = re.sub(r"FramedWrite<[A-Za-z0-9_]+,", "FramedWrite<_,", t)
+    ps = NM.PS()
+    if ps:
+        t = t.replace(ps, "_PS_")
+    return t
+
+
 def l2_no_shared_blocking_state(C, rep, rid):
     rep.rule(rid, "the RPC client, datastore and payment provider hold no lock / channel / shared connection; every RPC opens its own connection; the only other guards (height cell) are never held across an await")
     F, X = C.F, C.X
@@ -1171,6 +1213,25 @@ def l2_no_shared_blocking_state(C, rep, rid):
                 if bad:
                     rep.ob(rid, False, name, "no permit pool", detail="%s::%s has type %s: a bounded pool of permits shared by all payments - once it is exhausted (by parked trampoline HTLCs, long-running pays) every other payment and every plain forward waits for them" % (name, f["n"], f["ty"]))
     rep.anchor(rid, "ADTs of the crate scanned for permit pools", nadt, 20)
+    # inventory of shared mutable state: every field of a crate type with interior mutability / a channel end is one of the
+    # known cells (by type shape, wherever it lives and whatever it is called).  A new one is a cache, a memo, a counter,
+    # a pool or a second copy of a cell - state that couples requests which the properties treat as independent.
+    inv = []
+    for name, a in sorted(F.adts.items()):
+        if "::test" in name or name.split("::")[-1].startswith("Mock") or not name.split("::")[0] in ("htlc_manager", "cln_plugin", "plugin", "rpc", "store", "payment_provider", "block_watcher", "messages", "email", "tlv"):
+            continue
+        for v in a.get("variants", []):
+            for f in v.get("fields", []):
+                if STATEFUL.search(f["ty"]):
+                    inv.append((name, f["n"], _shape(f["ty"])))
+    known = set(KNOWN_STATE) | {re.sub(r"^std::sync::Arc<(.*)>$", r"\1", k) for k in KNOWN_STATE}
+    for name, fn_, shape in inv:
+        if shape.startswith("&"):
+            continue                          # a borrow of a cell that lives elsewhere
+        if shape in known:
+            continue                          # another handle to / the new home of a known cell (C20-C counts the cells)
+        rep.ob(rid, False, name, "no new shared mutable state", detail="%s::%s: %s is a piece of shared mutable state the properties do not account for (a cache / memo / counter / pool / second cell): requests that must be handled independently can influence each other through it" % (name, fn_, shape))
+    rep.anchor(rid, "fields with interior mutability / channel ends in the crate's types", len(inv), 8)
     acq = [c for b in F.code_bodies() for c in b.calls if re.match(r"^tokio::sync::Semaphore::(acquire|acquire_owned|acquire_many|acquire_many_owned|try_acquire|try_acquire_owned)$", c.name) and not c.noise]
     rep.ob(rid, not acq, "crate", "no semaphore acquisition", where=acq[0].loc if acq else "", how="none", detail="" if not acq else "%s at %s: work for one payment hash queues behind permits held for others" % (acq[0].name, acq[0].loc))
     # per-call connection
